@@ -64,3 +64,30 @@ Theorem c12_nil_compare_is_default_is_source :
   end.
 Proof. exact DecCompare.nil_compare_is_default. Qed.
 Print Assumptions c12_nil_compare_is_default_is_source.
+
+(* a handle that replaces an existing one shares its version record and the lock guarding it; every published map of
+   collections is a fresh copy (a snapshot never shares the map the store goes on writing to) *)
+From GK Require Import DecSetColl.
+Theorem c12_set_collection_function_is_source :
+  body "Store.SetCollection" =
+    [SIf [] (GBin "==" (GVar "compare") GNil) [SAssign [GVar "compare"] "=" [GVar "bytes.Compare"]] [];
+     SFor [] None []
+       [SAssign [GVar "orig"] ":=" [GCall "s.getColl" []];
+        SAssign [GVar "coll"] ":=" [GCall "copyColl" [GUn "*" (GCall "(*map[string]*Collection)" [GVar "orig"])]];
+        SAssign [GVar "cnew"] ":=" [GCall "s.MakePrivateCollection" [GVar "compare"]];
+        SAssign [GVar "cnew.name"] "=" [GVar "name"];
+        SAssign [GVar "cold"] ":=" [GCall "[]" [GVar "coll"; GVar "name"]];
+        SIf [] (GBin "!=" (GVar "cold") GNil)
+          [SAssign [GVar "cnew.rootLock"] "=" [GVar "cold.rootLock"];
+           SAssign [GVar "cnew.root"] "=" [GCall "cold.rootAddRef" []]] [];
+        SAssign [GCall "[]" [GVar "coll"; GVar "name"]] "=" [GVar "cnew"];
+        SIf [] (GCall "s.casColl" [GVar "orig"; GUn "&" (GVar "coll")])
+          [SExpr (GCall "cold.closeCollection" []); SReturn [GVar "cnew"]] [];
+        SExpr (GCall "cnew.closeCollection" [])]] /\
+  body "copyColl" =
+    [SAssign [GVar "res"] ":=" [GCall "make" [GOther "map[string]*Collection"]];
+     SRange (GVar "name") (GVar "c") (GVar "orig")
+       [SAssign [GCall "[]" [GVar "res"; GVar "name"]] "=" [GVar "c"]];
+     SReturn [GVar "res"]].
+Proof. exact DecSetColl.set_collection_function. Qed.
+Print Assumptions c12_set_collection_function_is_source.
